@@ -12,9 +12,9 @@ for s in "${seeds[@]}"; do
   git -C /repo worktree add -q --detach "$WT" HEAD || exit 2
   if ! git -C "$WT" apply "$V/seeded/$s/patch.diff"; then echo -e "$s\t-\tPATCH-DOES-NOT-APPLY" >> "$out"; git -C /repo worktree remove --force "$WT"; continue; fi
   for c in $checks; do
-    o=$(VERIF_REPO="$WT" timeout 1500 "$V/run.sh" $c quick 2>&1); rc=$?
+    o=$(VERIF_OUT="$WT.out" VERIF_REPO="$WT" timeout 1500 "$V/run.sh" $c quick 2>&1); rc=$?
     if [ $rc -eq 1 ] && echo "$o" | grep -q '^VIOLATION'; then v=CAUGHT; cls=$(echo "$o" | grep -m1 -o 'class=[^ ]*'); else v="missed(rc=$rc)"; cls=""; fi
     echo -e "$s\t$c\t$v\t$cls" >> "$out"
   done
-  git -C /repo worktree remove --force "$WT"; git -C /repo worktree prune
+  git -C /repo worktree remove --force "$WT"; git -C /repo worktree prune; rm -rf "$WT.out"
 done
